@@ -59,7 +59,7 @@ CLAIMED["C01"] = dict(
           "{no metering, cost V0, cost V1}; result value, trap-ness, final memory (which includes the globals via a wrapper function) must equal the reference. The four recorded conformance "
           "defects (D1-D6) are attributed only through their root-cause predicates evaluated on the reference run (CompileModel.tla) and pinned witnesses are run every time."),
     note=("Bounded: one module template (4 functions, 2 globals, 1-2 pages, 4-entry table), bodies of length <= 4-7 per alphabet exhaustively and <= 14-24 randomly; i64 operands from boundary classes. "
-          "A different defect that only shows on runs where a D1/D2/D4/D5/D6 hazard predicate also holds would be attributed to the recorded finding (DESIGN 3.6). Trap classes are compared as trap-ness only. "
+          "A different defect that only shows on runs where a D1/D2/D4/D5/D6 hazard predicate also holds would be attributed to the recorded finding (DESIGN 3.6). D2 is attributed to any disagreeing run that executes code located, inside a value-carrying block or if, after a br_if to that block (the release of the result register is a compile-time event). Trap classes are compared as trap-ness only. "
           "Trusted: TLC, checks/wasmasm.py, harness, shims; the H2 assertions make out-of-bounds accesses deterministic panics."),
     ref="4 C01")
 CLAIMED["C02"] = dict(
